@@ -253,10 +253,10 @@ check of the property they target. The first round (k = 1, 2) was used while the
 was produced afterwards: 13 of its 40 were caught at first, 3 were undecided or crashed the checker, 24 were missed. Every miss
 was traced to something the check did not cover (literal-argument resolution in the parser, emitter branches on literal values,
 program shapes missing from a corpus, an engine gap) and the check was extended - the table shows the state after that.
-Later rounds (k = 5..22) were handled the same way; before each matrix run the author notes of the new seeds were
+Later rounds (k = 5..24) were handled the same way; before each matrix run the author notes of the new seeds were
 read and the checks extended *pre-emptively* for the classes of change they describe, so the first-pass figures are not blind:
-round 3: 31 of 40 at first pass, round 4: 15 of 40 (no pre-emptive edits), round 5: 32 of 40, round 6: 19 of 40, round 7: 20 of 40, round 8: 20 of 40, round 9: 24 of 40, round 10: 17 of 40 and round 11: 24 of 40
-(the last six without pre-emptive edits; the authors were told every idea already taken, so each round is harder than the one before). The recurring causes of a miss were (1) a
+round 3: 31 of 40 at first pass, round 4: 15 of 40 (no pre-emptive edits), round 5: 32 of 40, round 6: 19 of 40, round 7: 20 of 40, round 8: 20 of 40, round 9: 24 of 40, round 10: 17 of 40, round 11: 24 of 40 and a half round 12 (eight properties): 7 of 16
+(the last seven without pre-emptive edits; the authors were told every idea already taken, so each round is harder than the one before). The recurring causes of a miss were (1) a
 program *shape* absent from a bounded corpus (re-declared devices, two displays of one class, re-specialised helper variants, a name re-used
 in another role by a later transpilation, arguments written with parentheses or calls), (2) parser-level argument resolution that the
 fragment contracts bypass by construction, (3) state outside the modelled frame. Each produced a new *family* of obligations (enumerated
